@@ -395,7 +395,9 @@ func isPow2(r *big.Rat) bool {
 	if r == nil || r.Sign() <= 0 {
 		return false
 	}
-	one := func(z *big.Int) bool { return z.Sign() > 0 && new(big.Int).And(z, new(big.Int).Sub(z, big.NewInt(1))).Sign() == 0 }
+	one := func(z *big.Int) bool {
+		return z.Sign() > 0 && new(big.Int).And(z, new(big.Int).Sub(z, big.NewInt(1))).Sign() == 0
+	}
 	return one(r.Num()) && one(r.Denom())
 }
 
@@ -453,6 +455,7 @@ type binding struct {
 	t    typ
 	zero bool   // declared with `var x float64`, not assigned yet
 	bb   string // an SDF value: the Gallina name of its bounding box
+	capt bool   // a variable of the enclosing function seen from inside a closure: read-only
 	// a struct under construction (`s := T{}`): the current value of each field
 	structName string
 	fields     map[string]*binding
@@ -492,6 +495,7 @@ type val struct {
 	t     typ
 	konst bool     // a Go constant expression
 	rat   *big.Rat // its exact value when known
+	isInt bool     // an untyped integer constant (1/2 is integer division in Go)
 	bb    string   // SDF value: its bounding box
 }
 
@@ -677,11 +681,11 @@ func (f *fctx) binary(n ast.Node, op token.Token, a, b val) (val, error) {
 			// the Go compiler folds constant expressions exactly; only scaling by a power of two
 			// is the same thing in float64 arithmetic
 			okMul := op == token.MUL && (isPow2(a.rat) || isPow2(b.rat))
-			okDiv := op == token.QUO && isPow2(b.rat)
+			okDiv := op == token.QUO && isPow2(b.rat) && !(a.isInt && b.isInt) // 1/2 == 0 in Go
 			if !okMul && !okDiv {
 				return val{}, f.errf(n, "constant expression folded exactly by the compiler (only c*2^k, c/2^k are modelled)")
 			}
-			r.konst = true
+			r.konst, r.isInt = true, a.isInt && b.isInt
 			if a.rat != nil && b.rat != nil {
 				if op == token.MUL {
 					r.rat = new(big.Rat).Mul(a.rat, b.rat)
@@ -1023,7 +1027,7 @@ func (f *fctx) expr(e0 ast.Expr, e env) (val, error) {
 		if err != nil {
 			return val{}, f.errf(x, "%v", err)
 		}
-		return val{s: s, t: tT, konst: true, rat: r}, nil
+		return val{s: s, t: tT, konst: true, rat: r, isInt: x.Kind == token.INT}, nil
 	case *ast.Ident:
 		if b, ok := e[x.Name]; ok {
 			if b.fields != nil {
@@ -1109,7 +1113,13 @@ func (f *fctx) expr(e0 ast.Expr, e env) (val, error) {
 		}
 		switch {
 		case x.Op == token.SUB && v.t.k == kT:
-			r := val{s: "(- " + v.s + ")", t: tT, konst: v.konst}
+			if v.konst && v.rat == nil {
+				return val{}, f.errf(x, "negation of a constant whose value is not tracked")
+			}
+			if v.konst && v.rat.Sign() == 0 {
+				return v, nil // the constant -0 is +0 in Go (there is no negative zero constant)
+			}
+			r := val{s: "(- " + v.s + ")", t: tT, konst: v.konst, isInt: v.isInt}
 			if v.rat != nil {
 				r.rat = new(big.Rat).Neg(v.rat)
 			}
@@ -1153,7 +1163,8 @@ func (f *fctx) expr(e0 ast.Expr, e env) (val, error) {
 	case *ast.CallExpr:
 		return f.call(x, e)
 	case *ast.FuncLit:
-		return f.funcLit(x, e)
+		// a closure captures variables by reference: only `return func(..) {..}` is the same thing in Gallina
+		return val{}, f.errf(x, "function literal outside a return statement")
 	}
 	return val{}, f.errf(e0, "unsupported expression %T", e0)
 }
@@ -1203,6 +1214,9 @@ func (f *fctx) funcLit(x *ast.FuncLit, e env) (val, error) {
 		}
 	}
 	inner := e.clone()
+	for _, b := range inner {
+		b.capt = true
+	}
 	ps, _, err := f.bindParams(x.Type.Params, inner)
 	if err != nil {
 		return val{}, err
@@ -1594,8 +1608,8 @@ func (f *fctx) stmts(list []ast.Stmt, e env, tl *tail, ind string) (string, erro
 				if s.Tok == token.DEFINE && !exists {
 					b = &binding{coq: coqIdent(id.Name), t: vs[i].t}
 					e[id.Name] = b
-				} else if !exists || b.fields != nil {
-					return "", f.errf(s, "assignment to %s, which is not a local variable", id.Name)
+				} else if !exists || b.fields != nil || b.capt {
+					return "", f.errf(s, "assignment to %s, which is not a plain local variable of this function", id.Name)
 				}
 				if !b.t.eq(vs[i].t) {
 					return "", f.errf(s, "assignment of %s to %s %s", vs[i].t.goName(), b.t.goName(), id.Name)
@@ -1619,7 +1633,7 @@ func (f *fctx) stmts(list []ast.Stmt, e env, tl *tail, ind string) (string, erro
 			if ok {
 				b = e[id.Name]
 			}
-			if b == nil || b.fields == nil || s.Tok != token.ASSIGN {
+			if b == nil || b.fields == nil || s.Tok != token.ASSIGN || b.capt {
 				return "", f.errf(s, "unsupported assignment target %s", exprString(s.Lhs[0]))
 			}
 			if tl != nil {
@@ -1671,6 +1685,9 @@ func (f *fctx) stmts(list []ast.Stmt, e env, tl *tail, ind string) (string, erro
 			if !ok || b.fields != nil {
 				return "", f.errf(s, "assignment to %s, which is not a local variable", id.Name)
 			}
+			if b.capt {
+				return "", f.errf(s, "assignment to %s, a variable of the enclosing function, inside a closure", id.Name)
+			}
 			if op, isOp := opAssign[s.Tok]; isOp {
 				cur := val{s: b.coq, t: b.t}
 				if b.zero {
@@ -1718,7 +1735,13 @@ func (f *fctx) stmts(list []ast.Stmt, e env, tl *tail, ind string) (string, erro
 		if len(s.Results) != 1 {
 			return "", f.errf(s, "return of %d values", len(s.Results))
 		}
-		v, err := f.expr(s.Results[0], e)
+		var v val
+		var err error
+		if fl, ok := s.Results[0].(*ast.FuncLit); ok {
+			v, err = f.funcLit(fl, e)
+		} else {
+			v, err = f.expr(s.Results[0], e)
+		}
 		if err != nil {
 			return "", err
 		}
@@ -1795,7 +1818,7 @@ func (f *fctx) stmts(list []ast.Stmt, e env, tl *tail, ind string) (string, erro
 				return "", f.errf(s, "if statement without effect")
 			}
 			for _, v := range vars {
-				if b, ok := e[v]; !ok || b.fields != nil || b.t.iface {
+				if b, ok := e[v]; !ok || b.fields != nil || b.t.iface || b.capt {
 					return "", f.errf(s, "assignment to %s inside a branch: not a plain local variable", v)
 				}
 			}
